@@ -29,6 +29,11 @@ class Prop(BaseProp):
         for k, cfg in enumerate(ddgen.CONFIGS):
             cases = [{"id": "d%d_%d" % (k, i), "text": ddgen.gen_case(rng, cfg, big), "meta": {"cfg": k}} for i in range(12 if not big else 60)]
             out.append({"name": "dd", "cases": cases, "env": ddgen.env_of(cfg)})
+        # sessions that write several shards (the session shard is flushed to a file of its own whenever it reaches a 2048-byte
+        # target): the reported shard bytes are the sum over all of them (seed C14-r4m1 reports the last one)
+        cfg = dict(sessgen.CONFIGS[0], HF_XET_MDB_SHARD_MIN_TARGET_SIZE="2048", XET_VERIF_SKIP_SHARD_INTEGRITY_CHECK="1")
+        many = [{"id": "ms%d" % i, "text": sessgen.gen_case(rng, sessgen.CONFIGS[0], big), "meta": {"cfg": 0}} for i in range(6 if not big else 20)]
+        out.append({"name": "sess", "cases": many, "env": cfg, "model": False, "timeout": 1200})
         return out + sessgen.streams(rng, tier)
 
     def nontrivial(self, stream, case, io):
